@@ -2,6 +2,7 @@ import U3.Model.Url
 import U3.Lemmas.Url
 import U3.Lemmas.UrlCase
 import U3.Lemmas.UrlHost
+import U3.Lemmas.UrlReparse
 /-!
 # C14 — URL parsing is total, canonical, and agrees with RFC 3986 on what the host is
 
@@ -267,16 +268,43 @@ theorem C14_dotted_scheme_witness :
 /-
 Full statement (DESIGN App. E): `parseUrl s = .ok u → u.scheme ∈ [some http, some https] →
 parseUrl (render u) = .ok u`.  It is FALSE on the tree (known finding
-`reparse-mismatch:zone-25-prefix`, witness below; the second counterexample class,
-`reparse-mismatch:empty-host`, is repaired — `C14_reparse_empty_host_ok`), so it can only hold under
-the side condition "the zone id of an IPv6 host does not start with `25`".  The composed proof under
-this side condition is not done.  Proved: the component fixed-point lemmas the round trip rests on — a normal-form component
-is left alone by the encoder (`C14_encode_keeps_normal`), the dot-segment remover is idempotent
-(`C14_dotseg_idempotent`), and, below, the host of every successful parse is a fixed point of host
-normalisation unless it has the `zone25` shape of the finding (`C14_parsed_host_fixed`,
-`C14_host_idempotent`) — and, on concrete inputs, the round trip itself (`C14_reparse_example`).
-Re-parse equality is checked on every generated http/https input by the implementation-side oracle.
+`reparse-mismatch:zone-25-prefix`, witness `C14_reparse_zone25_witness` below; the second
+counterexample class, `reparse-mismatch:empty-host`, is repaired — `C14_reparse_empty_host_ok`).
+
+Proved (`C14_reparse_partial`): the round trip for **every** input string, every IDNA oracle keeping
+its contracts, under exactly the complement of the finding — the parsed host has not the `zone25`
+shape (a bracketed literal whose zone id starts with `25` and goes on; `C14_host_idempotent_zone25_exact`
+shows that a host of that shape is never re-normalised to itself, so the hypothesis cannot be
+weakened).  The proof (`U3.Lemmas.UrlReparse`) derives the properties of a parsed http/https `Url`
+(`Parsed`: userinfo/path/query/fragment in normal form, path a `/`-joined list of clean segments
+starting with `/`, host a text `_HOST_PORT_RE` reads back, port ≤ 65535, "host absent ⇒ no userinfo, no
+port", "host empty ⇒ userinfo or port") and then runs `parse_url` on the rendered text: `_URI_RE` cuts it
+at the same places (`splitAuthority_render`, `splitPQF_render`), `rpartition("@")` / `_HOST_PORT_RE` /
+`int(str(port))` give the authority components back (`parseAuthority_render`, `portPart_natToDec`), the
+host is a fixed point of `_normalize_host` (`C14_parsed_host_fixed`), the other components of the
+encoder and the dot-segment remover (`C14_encode_keeps_normal`, `cleanJoin_fixed`).
+Contracts on `idna.encode`: `IdnaLdh` (answers made of `a-z 0-9 - .`) and "no empty answer".
 -/
+theorem C14_reparse_partial (idna : Str → Option Str) (hc : IdnaLdh idna)
+    (hne : ∀ l r, idna l = some r → r ≠ []) (s : Str) (u : Url)
+    (h : parseUrlWith idna s = .ok u) (hs : u.scheme ∈ [some http, some https])
+    (h25 : ∀ x, u.host = some x → zone25 x = false) :
+    parseUrlWith idna u.render = .ok u := by
+  simp only [List.mem_cons, List.not_mem_nil, or_false] at hs
+  rcases hs with hs | hs
+  · exact reparse hc hne h hs (Or.inl rfl) h25
+  · exact reparse hc hne h hs (Or.inr rfl) h25
+
+-- non-vacuity: the IDNA-free oracle keeps both contracts; "HTTP://U@[FE80::1%25Eth0]:080/a/../%7e?q #f"
+-- parses with scheme http and a host without the shape of the finding (and the round trip is also
+-- evaluated directly in `C14_reparse_example`)
+example : IdnaLdh (fun _ => none) ∧ ∀ l r, (fun _ => none : Str → Option Str) l = some r → r ≠ [] :=
+  ⟨by intro l r h; simp at h, by simp⟩
+example : (parseUrl [72, 84, 84, 80, 58, 47, 47, 85, 64, 91, 70, 69, 56, 48, 58, 58, 49, 37, 50, 53, 69, 116, 104, 48, 93,
+      58, 48, 56, 48, 47, 97, 47, 46, 46, 47, 37, 55, 101, 63, 113, 32, 35, 102]).toOption.map
+    (fun u => (u.scheme, u.host, u.host.map zone25)) =
+    some (some http, some [91, 102, 101, 56, 48, 58, 58, 49, 37, 69, 116, 104, 48, 93], some false) := by decide
+
 theorem C14_reparse_example :
     ∀ u, parseUrl [72, 84, 84, 80, 58, 47, 47, 85, 64, 91, 58, 58, 49, 93, 58, 48, 56, 48, 47, 97, 47, 46, 46, 47,
         37, 55, 101, 63, 113, 32, 35, 102] = .ok u →
